@@ -2,6 +2,7 @@ package main
 
 import (
 	"bytes"
+	"encoding/base64"
 	"encoding/json"
 	"fmt"
 	"os"
@@ -31,6 +32,7 @@ type consCfg struct {
 }
 
 type consCase struct {
+	Raw  string   `json:"raw"` // base64 of an event line produced elsewhere (the C01 generator): only success/length/determinism are judged
 	Ev   []string `json:"ev"`
 	VC   []string `json:"vc"` // value class per member
 	Cfg  consCfg  `json:"cfg"`
@@ -222,6 +224,20 @@ func (f *consoleFam) play(l *Line, out *rec) error {
 		var c consCase
 		if err := json.Unmarshal(raw, &c); err != nil {
 			return err
+		}
+		if c.Raw != "" {
+			inb, _ := base64.StdEncoding.DecodeString(c.Raw)
+			var o1, o2 bytes.Buffer
+			n, err := zerolog.ConsoleWriter{Out: &o1, NoColor: true, TimeLocation: time.UTC}.Write(inb)
+			zerolog.ConsoleWriter{Out: &o2, NoColor: true, TimeLocation: time.UTC}.Write(inb)
+			errs := ""
+			if err != nil {
+				errs = err.Error()
+			}
+			line := o1.String()
+			out.emit(map[string]interface{}{"a": "Raw", "n": n, "inlen": len(inb), "err": errs, "same": bytes.Equal(o1.Bytes(), o2.Bytes()),
+				"oneline": strings.HasSuffix(line, "\n") && strings.Count(line, "\n") == 1, "endsnl": strings.HasSuffix(line, "\n")})
+			continue
 		}
 		var in bytes.Buffer
 		lg := zerolog.New(&in)
